@@ -11,6 +11,7 @@ R-AXIS       the distinguished local axis of axis-symmetric shapes is the same i
 R-CLOSEDSET  containment predicates: inclusion comparisons are non-strict, exclusion masks strict.
 """
 import ast
+import re
 import copy
 
 from ..core.astutil import (u, call_name, calls, index_elts, const, iter_stmts, compare_triples, parent_map,
@@ -101,7 +102,29 @@ def classes_with_update_pose(idx):
     return out
 
 
-def r_coherence(idx, rep, rule="R-COHERENCE"):
+def attrs_read_by(idx, ci, mname, _seen=None):
+    """attributes of self read (transitively through self.<method>() calls) by method `mname` of class ci; None when ci has no such method"""
+    m = idx.find_method(ci, mname)
+    if m is None:
+        return None
+    seen = _seen if _seen is not None else set()
+    if m.key in seen:
+        return set()
+    seen.add(m.key)
+    out = set()
+    for n in ast.walk(m.node):
+        if isinstance(n, ast.Attribute) and isinstance(n.value, ast.Name) and n.value.id == "self":
+            sub = idx.find_method(ci, n.attr)
+            if sub is not None:
+                out |= attrs_read_by(idx, ci, n.attr, seen) or set()
+            else:
+                out.add(n.attr)
+    return out
+
+
+def r_coherence(idx, rep, rule="R-COHERENCE", relevant_to=None):
+    """relevant_to: restrict the per-attribute instances to attributes read by that method (e.g. 'aabb' for the broad phase);
+    classes without such a method are skipped"""
     rep.rule(rule, "update_pose refreshes every attribute whose constructor value depends on the pose-carrying constructor "
                    "parameters (directly, by recomputation with the constructor's expression, or by delegating update_pose)",
              floor=10)
@@ -110,6 +133,11 @@ def r_coherence(idx, rep, rule="R-COHERENCE"):
         attrs, params = ctor_attrs(idx, ci)
         if not attrs:
             continue
+        relevant = None
+        if relevant_to is not None:
+            relevant = attrs_read_by(idx, ci, relevant_to)
+            if relevant is None:
+                continue
         up_params = [p for p in up.params() if p != "self"]
         if not up_params:
             continue
@@ -132,6 +160,11 @@ def r_coherence(idx, rep, rule="R-COHERENCE"):
         for a, e in delegated.items():
             if a in attrs and isinstance(attrs[a], ast.Name):
                 Q.add(attrs[a].id)
+        # ... and constructor parameters that are poses by the naming convention (<a>2<b>) or share update_pose's parameter name:
+        # they stay pose-carrying even when update_pose forgets to store them
+        for q in params:
+            if q == pose or re.match(r"^[a-z_]+2[a-z_]+$", q):
+                Q.add(q)
         # the new pose must be consumed: stored in an attribute or handed to a delegate
         consumed = any(pose in _names(e) for e in direct.values()) or any(a is not None and pose in _names(a) for a in delegated.values())
         rep.check(consumed, rule, ck + "|pose consumed", up.where,
@@ -145,7 +178,7 @@ def r_coherence(idx, rep, rule="R-COHERENCE"):
         stored_in = {e.id: a for a, e in attrs.items() if isinstance(e, ast.Name)}
         # attributes that do NOT depend on the pose must not be changed by update_pose to something a fresh object would not have
         for b, e in sorted(direct.items()):
-            if b in VISUAL_ONLY or b not in attrs:
+            if b in VISUAL_ONLY or b not in attrs or (relevant is not None and b not in relevant):
                 continue
             if _names(attrs[b]) & Q or pose in _names(e):
                 continue
@@ -158,7 +191,7 @@ def r_coherence(idx, rep, rule="R-COHERENCE"):
             dep = _names(e) & Q
             if not dep:
                 continue
-            if b in VISUAL_ONLY:
+            if b in VISUAL_ONLY or (relevant is not None and b not in relevant):
                 continue
             key = ck + "|%s depends on %s" % (b, ",".join(sorted(dep)))
             if b in delegated:
@@ -299,10 +332,10 @@ def r_aabbargs(idx, rep, rule="R-AABBARGS"):
                                   "%s.%s() calls %s: function of a different shape" % (ci.name, mname, callee.name))
 
 
-def r_margin(idx, rep, rule="R-MARGIN"):
+def r_margin(idx, rep, rule="R-MARGIN", floor=6):
     rep.rule(rule, "Margin.support_function = inner support + margin * norm_vector(direction); first_vertex / center / "
                    "update_pose / collider2origin delegate to the wrapped collider; Margin.aabb subtracts the margin from the "
-                   "lower and adds it to the upper bounds", floor=6)
+                   "lower and adds it to the upper bounds", floor=floor)
     ci = idx.cls(COLL + "::Margin")
     sf = ci.methods.get("support_function")
     if sf is None:
@@ -364,9 +397,9 @@ def r_margin(idx, rep, rule="R-MARGIN"):
     rep.check(ok, "R-MARGIN", ci.key + ".aabb|lo - margin, hi + margin", ab.where, why)
 
 
-def r_axis(idx, rep, rule="R-AXIS"):
+def r_axis(idx, rep, rule="R-AXIS", floor=4):
     rep.rule(rule, "the distinguished local axis of every axis-symmetric shape is the same column/component index in its "
-                   "support function, AABB, containment test, first_vertex, center and update_pose", floor=4)
+                   "support function, AABB, containment test, first_vertex, center and update_pose", floor=floor)
     C = {}
     shapes = {"cylinder": "Cylinder", "capsule": "Capsule", "cone": "Cone", "disk": "Disk"}
     for shape, cname in shapes.items():
@@ -386,10 +419,10 @@ def r_axis(idx, rep, rule="R-AXIS"):
             return cols
         f = idx.maybe_func("distance3d.containment::%s_aabb" % shape)
         if f is not None and shape != "disk":
-            found["containment.%s_aabb" % shape] = pose_cols(f.node)
+            found["distance3d.containment::%s_aabb" % shape] = pose_cols(f.node)
         f = idx.maybe_func("distance3d.containment_test::points_in_%s" % shape)
         if f is not None and shape != "disk":
-            found["containment_test.points_in_%s" % shape] = pose_cols(f.node)
+            found["distance3d.containment_test::points_in_%s" % shape] = pose_cols(f.node)
         ci = idx.modules[COLL].classes.get(cname)
         if ci is not None:
             for mname in ("first_vertex", "center", "update_pose"):
@@ -397,7 +430,7 @@ def r_axis(idx, rep, rule="R-AXIS"):
                 if m is not None:
                     cols = pose_cols(m.node, posename=([p for p in m.params() if p != "self"] or [None])[0])
                     if cols:
-                        found["%s.%s" % (cname, mname)] = cols
+                        found["distance3d.colliders::%s.%s" % (cname, mname)] = cols
         f = idx.maybe_func("distance3d.geometry::support_function_%s" % shape)
         if f is not None and shape != "disk":
             comp = set()
@@ -418,7 +451,7 @@ def r_axis(idx, rep, rule="R-AXIS"):
                     if isinstance(k, int):
                         comp.add(k)
             if comp:
-                found["geometry.support_function_%s" % shape] = comp
+                found["distance3d.geometry::support_function_%s" % shape] = comp
         if shape == "disk":
             f = idx.maybe_func("distance3d.geometry::support_function_disk")
             if f is not None:
@@ -431,23 +464,30 @@ def r_axis(idx, rep, rule="R-AXIS"):
                             if u(e) == "normal":
                                 stackpos.add(k)
                 if zeroed:
-                    found["geometry.support_function_disk (zeroed component)"] = zeroed
+                    found["distance3d.geometry::support_function_disk|zeroed component"] = zeroed
                 if stackpos:
-                    found["geometry.support_function_disk (normal column)"] = stackpos
+                    found["distance3d.geometry::support_function_disk|normal column"] = stackpos
             if ci is not None and "collider2origin" in ci.methods:
                 for n in ast.walk(ci.methods["collider2origin"].node):
                     if isinstance(n, ast.Call) and call_name(n) == "np.column_stack" and n.args and isinstance(n.args[0], ast.Tuple):
                         for k, e in enumerate(n.args[0].elts):
                             if u(e) == "self.normal":
-                                found["Disk.collider2origin (normal column)"] = {k}
-        allv = set()
-        for s in found.values():
-            allv |= s
+                                found["distance3d.colliders::Disk.collider2origin|normal column"] = {k}
         if not found:
             continue
+        # reference = the axis most siblings use (confirmed by reading: index 2, the local z axis / third column, for all four shapes);
+        # only the deviating sibling is reported, so the finding lands on the property whose code deviates
+        votes = {}
+        for cols in found.values():
+            if len(cols) == 1:
+                k = next(iter(cols))
+                votes[k] = votes.get(k, 0) + 1
+        ref = max(votes, key=lambda k: votes[k]) if votes else None
+        if ref is not None and sum(1 for v in votes.values() if v == votes[ref]) > 1:
+            ref = None          # tie: no majority, every site is suspect
         for site, cols in sorted(found.items()):
-            key = "%s|%s axis" % (shape, site)
-            rep.check(len(allv) == 1 and len(cols) == 1, rule, key, site,
+            key = "%s|%s axis" % (site, shape)
+            rep.check(cols == {ref}, rule, key, site.split("|")[0],
                       "%s uses local axis index %s for the %s but its siblings use %s" % (site, sorted(cols), shape, {k: sorted(v) for k, v in found.items()}),
                       "axis %s" % sorted(cols))
 
